@@ -7,6 +7,7 @@ func init() {
 		ID:    "C06",
 		Title: "A page using a layout renders the layout with reserves filled by its inserts",
 		Rules: []string{
+			"R-REGISTRY (context): every evaluation context built carries the custom functions and the configuration",
 			"R-LOADALL: in the loader's loop a program is registered only after both linkers ran (must-pass-through), and a pass ends by registering, by failing or over the HasReserveStmt() edge",
 			"R-SCOPE / R-BRANCH: every @if branch of the layout is evaluated in a fresh enclosed scope (an insert body that assigns does not leak into the layout)",
 			"R-SHARED-RW: no package-level variable is both written and read on the render paths (state kept between calls: a shared environment for data-less renders, a cache of converted data or parsed programs)",
@@ -19,7 +20,8 @@ func init() {
 		NotDecided:  "TODO",
 		Assumptions: trustedBase,
 		Run: func(m *Model, s *Sink) {
-			m.RunLoadAll(s, "R-LOADALL") // a page is registered only after its layout was linked
+			m.RunCtxComplete(s, "R-REGISTRY") // the layout is evaluated like the page: every evaluation context built carries the registry and the configuration
+			m.RunLoadAll(s, "R-LOADALL")      // a page is registered only after its layout was linked
 			m.RunBranch(s, "R-BRANCH")
 			m.RunScope(s, "R-SCOPE")                                         // a reserve inside a branch evaluates its insert in that branch's own scope
 			m.RunSharedWrites(s, "R-SHARED-RW", m.Roots().Render, "history") // what one render leaves behind must not reach the next (a shared environment for data-less calls, a cache of bound data, a memo of parsed strings)
